@@ -166,7 +166,7 @@ theorem subB_step {B : Int} (hB0 : 0 ≤ B) (hB1 : B + 100000000000000000 ≤ 92
       rw [wrap_id (x := (loadSub c s a e).bal + amt) (by omega) (by omega)]
       refine subB_saveSub c (up _ h) e ⟨?_, ?_, ?_, ?_⟩ <;> dsimp only <;> omega
   · intro s f t e amt h
-    rcases execTransfer_cases c s f t e amt with hf | ⟨_, h1, h2, he⟩
+    rcases execTransfer_cases c s f t e amt with hf | ⟨_, _, h1, h2, he⟩
     · rw [hf.1]; exact up _ h
     · rw [he]; rw [checkAmount_iff] at h1
       obtain ⟨a1, a2, a3, a4⟩ := subB_load c h hB0 f e
@@ -176,7 +176,7 @@ theorem subB_step {B : Int} (hB0 : 0 ≤ B) (hB1 : B + 100000000000000000 ≤ 92
       refine subB_saveSub c (s := saveSub c s e _) (subB_saveSub c (up _ h) e ⟨?_, ?_, ?_, ?_⟩) e ⟨?_, ?_, ?_, ?_⟩ <;>
         dsimp only <;> omega
   · intro s f t e amt h
-    rcases execTransferFrozen_cases c s f t e amt with hf | ⟨_, h1, h2, he⟩
+    rcases execTransferFrozen_cases c s f t e amt with hf | ⟨_, _, h1, h2, he⟩
     · rw [hf.1]; exact up _ h
     · rw [he]; rw [checkAmount_iff] at h1
       obtain ⟨a1, a2, a3, a4⟩ := subB_load c h hB0 f e
